@@ -5473,7 +5473,6 @@ func checkNumberWordsAndLocalDictionary(c *Ctx, p *core.Prog) {
 		}
 		c.R.Check(bad == "", "R11.15", "the word maps of a dictionary are assigned only where it is created", v2pkg, fmt.Sprintf("%d stores into the map fields of a dictionary, all into a struct allocated by the same function", nS),
 			bad+": token ids handed out before that point now name other words - the words of the line being assembled are garbled, and where that happens differs between a text and its normalised form")
-		c.R.RequireMin("R11.15", "stores into the map fields of a dictionary", nS, 2)
 	}
 }
 
@@ -5536,7 +5535,9 @@ func checkDictLookupsOnCleanWord(c *Ctx, p *core.Prog) {
 				"the word handed to "+g.Name()+" is "+bad+", a string computed from the cleaned word: whether that look-up succeeds depends on the other documents of the corpus, so an unrelated document changes the tokens - and the confidence - of an input")
 		}
 	}
-	c.R.RequireMin("R04.12", "dictionary look-ups in the function that cleans the words of a line", n, 1)
+	if n == 0 {
+		c.R.Info("R04.12", "dictionary look-ups of the tokenizer", v2pkg, "not decided: no function both cleans the words of a line and looks them up (the two steps were separated)")
+	}
 }
 
 // checkCandidateLinesTraversed: R05.11. Where match walks over the lines of a candidate (a loop whose exit test compares its
